@@ -103,6 +103,8 @@ pub enum Role {
     Router,
     RewardAuth,
     MintAuth,
+    Admin,
+    Creator,
 }
 
 #[derive(Clone, Debug)]
@@ -196,6 +198,11 @@ pub struct Gen {
     pending_patches: Vec<HEvent>,
 }
 
+thread_local! {
+    /// raw events (e.g. fabricated accounts) an actor wants applied before its next transaction
+    pub static RAW_EVENTS: std::cell::RefCell<Vec<HEvent>> = const { std::cell::RefCell::new(Vec::new()) };
+}
+
 pub fn floor_div(a: i32, b: i32) -> i32 {
     a.div_euclid(b)
 }
@@ -286,6 +293,11 @@ pub fn make_knobs(profile: Profile, rng: &mut Rng, thorough: bool) -> Knobs {
             k.clock_stall_pct = pct(rng, 5, 2, 10);
             k.clock_jump_pct = pct(rng, 6, 2, 10);
             k.clock_back_pct = pct(rng, 4, 1, 6);
+        }
+        Profile::Admin => {
+            k.n_lps = 2;
+            k.n_traders = 2;
+            k.adaptive_pct = 50;
         }
         Profile::Lifecycle => {
             k.n_lps = 3;
@@ -579,6 +591,22 @@ impl Gen {
                 rng: arng,
             });
         }
+        if knobs.profile == Profile::Admin && rng.chance(3, 4) {
+            world::must(
+                &mut l,
+                vec![
+                    ix::mk(
+                        whirlpool::accounts::InitializeConfigExtension { config, config_extension: ix::pda_config_extension(&config), funder: payer, fee_authority, system_program: ix::sys() },
+                        whirlpool::instruction::InitializeConfigExtension {},
+                    ),
+                    ix::mk(
+                        whirlpool::accounts::SetConfigFeatureFlag { whirlpools_config: config, authority: payer },
+                        whirlpool::instruction::SetConfigFeatureFlag { feature_flag: whirlpool::state::ConfigFeatureFlag::TokenBadge(true) },
+                    ),
+                ],
+                "config extension + badge feature",
+            );
+        }
         // the fee authority and the collector act through their own wallets
         let mut special = vec![(Role::FeeAuth, fee_authority), (Role::Collector, collector)];
         if knobs.profile == Profile::Rewards {
@@ -586,6 +614,10 @@ impl Gen {
         }
         if knobs.profile == Profile::T22 {
             special.push((Role::MintAuth, mint_authority));
+        }
+        if knobs.profile == Profile::Admin {
+            special.push((Role::Admin, fee_authority));
+            special.push((Role::Creator, payer));
         }
         for (role, wallet) in special {
             let id = actors.len();
@@ -662,6 +694,7 @@ impl Gen {
                 Role::Lp => g.rng.below(800),
                 Role::RewardAuth => g.rng.below(400),
                 Role::MintAuth => g.rng.below(4000),
+                Role::Admin | Role::Creator => g.rng.below(1500),
                 _ => 1500 + g.rng.below(4000),
             };
             g.push(at, Ev::Wake(i));
@@ -855,8 +888,14 @@ impl Gen {
             Role::Router => crate::gen2::plan_router(&self.w, &self.knobs, &mut actor, ledger),
             Role::RewardAuth => crate::gen2::plan_reward_auth(&self.w, &self.knobs, &mut actor, ledger),
             Role::MintAuth => crate::gen2::plan_mint_auth(&self.w, &self.knobs, &mut actor, ledger),
+            Role::Admin => crate::gen4::plan_admin(&self.w, &self.knobs, &mut actor, ledger),
+            Role::Creator => crate::gen4::plan_creator(&self.w, &self.knobs, &mut actor, ledger, self.clock_now().unix_timestamp),
         };
         self.w.actors[id].rng = actor.rng;
+        let raw: Vec<HEvent> = RAW_EVENTS.with(|r| std::mem::take(&mut *r.borrow_mut()));
+        for e in raw.into_iter().rev() {
+            self.pending_patches.push(e);
+        }
         if !flow.is_empty() {
             self.send_flow(id, flow);
         }
@@ -869,6 +908,8 @@ impl Gen {
             Role::Collector => 10_000 + self.rng.below(60_000),
             Role::RewardAuth => 1_000 + self.rng.below(12_000),
             Role::MintAuth => 2_000 + self.rng.below(15_000),
+            Role::Admin => 500 + self.rng.below(5_000),
+            Role::Creator => 500 + self.rng.below(5_000),
         };
         self.push(self.now_ms + next, Ev::Wake(id));
     }
